@@ -115,6 +115,13 @@ func Check(m *sx.Machine, units []*Unit, cfg Config) *Report {
 			continue
 		}
 		rep.Paths += len(results)
+		if cfg.Verbose {
+			reasons := map[string]int{}
+			for _, r := range results {
+				reasons[r.Reason]++
+			}
+			fmt.Printf("  unit %s %s: path ends %v\n", u.Func, u.Instance, reasons)
+		}
 		byName := map[string]*rawObl{}
 		var order []string
 		for _, r := range results {
@@ -148,7 +155,7 @@ func Check(m *sx.Machine, units []*Unit, cfg Config) *Report {
 			if ob.Cond.IsTrue() {
 				continue
 			}
-			goals = append(goals, smt.Implies(smt.And(ob.PC...), ob.Cond))
+			goals = append(goals, smt.Implies(smt.And(ob.PC...), simplifyUnder(ob.PC, ob.Cond)))
 		}
 		if len(goals) == 0 {
 			o.Status = "trivial"
@@ -160,6 +167,7 @@ func Check(m *sx.Machine, units []*Unit, cfg Config) *Report {
 			continue
 		}
 		q := &smt.Query{Name: g.name, Goal: goal, PreDecl: g.unit.PreDecl, Prelude: g.unit.Prelude}
+		q.Hyps = arithAxioms(goal)
 		for _, v := range smt.FreeVars(goal) {
 			if v.S.K == smt.KBV || v.S.K == smt.KBool || v.S.K == smt.KInt {
 				q.Values = append(q.Values, v)
@@ -169,14 +177,51 @@ func Check(m *sx.Machine, units []*Unit, cfg Config) *Report {
 		o.Size = smt.Size(goal)
 		wg.Add(1)
 		sem <- struct{}{}
-		go func(o *Outcome, q *smt.Query, g *rawObl) {
+		go func(o *Outcome, q *smt.Query, g *rawObl, goals []*smt.Term) {
 			defer wg.Done()
 			defer func() { <-sem }()
 			to := cfg.Timeout
 			if g.unit.Timeout > 0 {
 				to = g.unit.Timeout
 			}
-			r := smt.Solve(q, to)
+			first := to
+			if len(goals) > 1 && first > 8 {
+				first = 8
+			}
+			r := smt.Solve(q, first)
+			if r.Status != "unsat" && r.Status != "sat" && len(goals) > 1 {
+				// the conjunction over all paths is too hard: decide the
+				// paths one by one (the obligation holds iff every one does)
+				spent := r.Seconds
+				all := true
+				seen := map[int]bool{}
+				for _, gi := range goals {
+					if gi.IsTrue() || seen[gi.ID] {
+						continue
+					}
+					seen[gi.ID] = true
+					qi := &smt.Query{Name: q.Name, Goal: gi, PreDecl: q.PreDecl, Prelude: q.Prelude, Hyps: arithAxioms(gi)}
+					for _, v := range smt.FreeVars(gi) {
+						if v.S.K == smt.KBV || v.S.K == smt.KBool || v.S.K == smt.KInt {
+							qi.Values = append(qi.Values, v)
+						}
+					}
+					ri := smt.Solve(qi, to)
+					spent += ri.Seconds
+					if ri.Status == "sat" {
+						r, q, all = ri, qi, false
+						break
+					}
+					if ri.Status != "unsat" {
+						r, all = ri, false
+					}
+				}
+				if all {
+					r.Status = "unsat"
+					r.Solver += "+split"
+				}
+				r.Seconds = spent
+			}
 			o.Solver = r.Solver
 			o.Seconds = r.Seconds
 			o.Output = r.Output
@@ -212,7 +257,7 @@ func Check(m *sx.Machine, units []*Unit, cfg Config) *Report {
 				}
 				o.Output = r.Status + ": " + o.Output
 			}
-		}(o, q, g)
+		}(o, q, g, goals)
 	}
 	wg.Wait()
 	for _, o := range outs {
